@@ -346,7 +346,7 @@ def decode_atom(text):
     if mm:
         p = dec_str(mm.group(3))
         return None if p is None else ("atom", ("match", mm.group(1), norm(p)), mm.group(2) == "!=")
-    mm = re.fullmatch(r"_=([-0-9.e+]+)", body)
+    mm = re.fullmatch(r"_ num ([-0-9.e+]+)", body)
     if mm:
         return ("atom", ("eq", "_", mm.group(1)), False)
     return None
@@ -682,11 +682,15 @@ def strop_to_coq(c, r):
     return f"({K}, {cstr(c['s'])}, {copt(dec)})"
 
 REQ = ["Base.Chars", "Model.Backend", "Spec.Target", "Run.C01run"]
+from props.c01_leaf import gen_leaf, leaf_to_coq, stratum_leaf, mutate_leaf, known_leaf
+REQ_LEAF = ["Base.Chars", "Base.Outcome", "Model.SString", "Model.StrOp", "Model.FieldName", "Model.Leaf", "Spec.Atom", "Run.C01leaf"]
 PROPERTY = Property(
     pid="C01", props_file="Props/C01.v",
     suites=[Suite("struct", gen_struct, "run_struct", REQ, "judge_struct", struct_to_coq, known=known_struct,
                   mutate=mutate, py_oracle=py_oracle, stratum=stratum, shard=120),
-            Suite("strop", gen_strop, "run_strop", REQ + ["Model.StrOp", "Spec.Items"], "judge_strop", strop_to_coq)],
+            Suite("strop", gen_strop, "run_strop", REQ + ["Model.StrOp", "Spec.Items"], "judge_strop", strop_to_coq),
+            Suite("leaf", gen_leaf, "run_leaf", REQ_LEAF, "judge_leaf", leaf_to_coq, stratum=stratum_leaf, mutate=mutate_leaf, known=known_leaf,
+                  shard=150)],
     rule="random rules (1-4 detections: maps, lists of maps, keyword lists; strings with wildcards/escapes, numbers, bools, null; "
          "modifiers contains/startswith/endswith/all/cased/re/cidr/exists/windash/base64offset/gt/lte/fieldref/neq/minute; conditions "
          "of depth <= 3 with and/or/not/selectors; 1-2 conditions) x random backend configurations (6 precedence orders, parenthesize, "
